@@ -175,8 +175,9 @@ def run(tier):
           "assumptions": ["glibc's allocator and stdio on private FILE handles are thread-safe", "econf_errString is driven with codes of its parameter type (0..24); out-of-range integers are outside the claim",
                           "allow-listed process-wide state: error-location record, drop-in directory list, security restriction flags (documented as global)"],
           "wall_s": round(time.time() - t0, 1), "violations": len(confirmed)}
-    os.makedirs(os.path.join(runner.VERIF, "evidence"), exist_ok=True)
-    json.dump(ev, open(os.path.join(runner.VERIF, "evidence", "C18.json"), "w"), indent=1)
+    if not os.environ.get("VERIF_NO_EVIDENCE"):
+        os.makedirs(os.path.join(runner.VERIF, "evidence"), exist_ok=True)
+        json.dump(ev, open(os.path.join(runner.VERIF, "evidence", "C18.json"), "w"), indent=1)
     print("SUMMARY property=C18 tier=%s statics=%d suspects=%d reachable=%d cover_queries=%d tsan_globals=%s tsan_ok=%s deny_hits=%d wall_s=%.1f" % (
         tier, len(statics), len(suspects), len(reachable), queries, sorted(tsan_globals), tsan_ok, len(bad_ext), time.time() - t0))
     shutil.rmtree(work, ignore_errors=True)
